@@ -135,6 +135,68 @@ impl<T> MpmcChannelInternal<T> {
     }
   }
 
+  /// Wakes the first parked receiver that is still WAITING (async first, then
+  /// sync), exactly as `try_send_core` does after a push. Used to pass on a
+  /// wake-up that its original target will not use.
+  pub(crate) fn wake_one_receiver(&mut self) {
+    let mut i = 0;
+    while i < self.waiting_async_receivers.len() {
+      let st = unsafe { &*self.waiting_async_receivers[i].state };
+      if st
+        .compare_exchange(STATE_WAITING, STATE_SUCCESS_SPACE, Ordering::SeqCst, Ordering::SeqCst)
+        .is_ok()
+      {
+        let waiter = self.waiting_async_receivers.remove(i).unwrap();
+        waiter.waker.wake();
+        return;
+      }
+      i += 1;
+    }
+    let mut i = 0;
+    while i < self.waiting_sync_receivers.len() {
+      let st = unsafe { &*self.waiting_sync_receivers[i].state };
+      if st
+        .compare_exchange(STATE_WAITING, STATE_SUCCESS_SPACE, Ordering::SeqCst, Ordering::SeqCst)
+        .is_ok()
+      {
+        let waiter = self.waiting_sync_receivers.remove(i).unwrap();
+        waiter.thread.unpark();
+        return;
+      }
+      i += 1;
+    }
+  }
+
+  /// Sender-side counterpart of `wake_one_receiver` (what `try_recv_core` does after a pop).
+  pub(crate) fn wake_one_sender(&mut self) {
+    let mut i = 0;
+    while i < self.waiting_async_senders.len() {
+      let st = unsafe { &*self.waiting_async_senders[i].state };
+      if st
+        .compare_exchange(STATE_WAITING, STATE_SUCCESS_SPACE, Ordering::SeqCst, Ordering::SeqCst)
+        .is_ok()
+      {
+        let waiter = self.waiting_async_senders.remove(i).unwrap();
+        waiter.waker.wake();
+        return;
+      }
+      i += 1;
+    }
+    let mut i = 0;
+    while i < self.waiting_sync_senders.len() {
+      let st = unsafe { &*self.waiting_sync_senders[i].state };
+      if st
+        .compare_exchange(STATE_WAITING, STATE_SUCCESS_SPACE, Ordering::SeqCst, Ordering::SeqCst)
+        .is_ok()
+      {
+        let waiter = self.waiting_sync_senders.remove(i).unwrap();
+        waiter.thread.unpark();
+        return;
+      }
+      i += 1;
+    }
+  }
+
   #[inline]
   pub(crate) fn drain_into(&mut self, out: &mut Vec<T>, count: usize) {
     for _ in 0..count {
